@@ -58,7 +58,7 @@ def f12(repo, res):
     n = rules_domain.checked_is_stored(repo, res, "F12", only=lambda q: q.startswith("Sensor.handedness"))
     res.require(n >= 1, "anchor vanished: membership test in the Sensor.handedness setter")
     inst = [i for i in rules_domain.setter_instances(repo) if i[1].startswith("Sensor.handedness")]
-    members = rules_domain.literal_members(inst[0][7])
+    members = rules_domain.literal_members(inst[0][7], repo, inst[0][0])
     cons = rules_domain.consumer_literals(repo, "handedness")
     res.require(len(cons) >= 2, "anchor vanished: comparisons of the handedness attribute (field code and display)")
     for m, q, c, lit_ in cons:
